@@ -23,19 +23,40 @@ namespace World
 def cifBusy (w : World) (c : Nat) : Bool := w.its.any (fun e => match e with | some e => e.cif == c | none => false)
 end World
 
-/-- the container handle is valid: its container exists -/
+/-- the container handle's row exists (necessary, not sufficient, for validity: see `CH.okB`) -/
 def CH.validB (h : CH) (d : Db) : Bool := d.hasContainer h.id
-/-- the loop handle is valid: its loop exists and the category it carries is the stored one -/
+/-- the loop handle's loop exists and the category it carries is the stored one (necessary for validity: see `LH.okB`) -/
 def LH.validB (l : LH) (d : Db) : Bool :=
   match d.loops.find? (fun x => x.cid == l.cid && x.loopNum == l.loopNum) with
   | some x => x.category == l.category
   | none => false
 
+/-- climbing from container `c` towards a data block: `c` is a block, or it has a save_frame row whose parent container exists and
+    climbs on (fuel bounds the depth; `frames.length + 1` suffices: a frame's container is younger than its parent, `InvTree.frameOrder`) -/
+def Db.upB (d : Db) : Nat → Nat → Bool
+  | 0, _ => false
+  | fuel + 1, c =>
+    d.blocks.any (fun b => b.cid == c) ||
+    (match d.frames.find? (fun f => f.cid == c) with
+     | some f => d.hasContainer f.parent && d.upB fuel f.parent
+     | none => false)
+
+/-- the container is PART OF THE CIF: its row exists and it hangs, through save frames, under a data block.  cif_container_destroy
+    "removes the associated container and all its contents" (cif.h) — in the store only the destroyed container's row and the
+    save_frame rows below it cascade, the `container` rows of nested frames (with their loops, items, values) stay behind as garbage
+    no query reaches: such containers are NOT part of the CIF, and a handle on one is not valid (review rA, finding A.9) -/
+def Db.inCif (d : Db) (c : Nat) : Bool := d.hasContainer c && d.upB (d.frames.length + 1) c
+
+/-- a container handle the contract accepts: its row exists AND the container is part of the CIF -/
+def CH.okB (h : CH) (d : Db) : Bool := h.validB d && d.inCif h.id
+/-- a loop handle the contract accepts: its loop exists with the cached category AND its container is part of the CIF -/
+def LH.okB (l : LH) (d : Db) : Bool := l.validB d && d.inCif l.cid
+
 def okC (w : World) (c : Nat) : Bool := match w.liveC c with | none => true | some _ => !w.cifBusy c
-def okH (w : World) (h : Nat) : Bool := match w.liveH h with | none => true | some (e, s) => !w.cifBusy e.cif && e.h.validB s.db
-def okL (w : World) (l : Nat) : Bool := match w.liveL l with | none => true | some (e, s) => !w.cifBusy e.cif && e.h.validB s.db
+def okH (w : World) (h : Nat) : Bool := match w.liveH h with | none => true | some (e, s) => !w.cifBusy e.cif && e.h.okB s.db
+def okL (w : World) (l : Nat) : Bool := match w.liveL l with | none => true | some (e, s) => !w.cifBusy e.cif && e.h.okB s.db
 /-- cif_loop_get_packets: through a valid handle, or on a CIF that has an open iterator (then it is refused) -/
-def okLOpen (w : World) (l : Nat) : Bool := match w.liveL l with | none => true | some (e, s) => w.cifBusy e.cif || e.h.validB s.db
+def okLOpen (w : World) (l : Nat) : Bool := match w.liveL l with | none => true | some (e, s) => w.cifBusy e.cif || e.h.okB s.db
 
 /-- a packet is a map: no key twice -/
 def keysDistinct : List (Str × V) → Bool
